@@ -638,14 +638,137 @@ def cpp_runtime_ir(ctx: core.Ctx):
             if val is None:
                 continue
             fields = {}
-            entry = out.setdefault(val, {"processUpdate": [], "tick": [], "fields": fields})
+            entry = out.setdefault(val, {"processUpdate": [], "tick": [], "fields": fields, "helpers": {}})
             for m in cppast.kids(spec):
                 if m.get("kind") == "CXXMethodDecl" and m.get("name") in ("processUpdate", "tick"):
                     body = cppast.body_of(m)
                     if body is not None:
                         entry[m["name"]].append((cppast.params_of(m), body, m.get("loc", {}).get("line")))
+                elif m.get("kind") == "CXXMethodDecl" and m.get("name") and not m["name"].startswith("operator"):
+                    body = cppast.body_of(m)
+                    if body is not None:
+                        entry["helpers"].setdefault(m["name"], []).append((cppast.params_of(m), body))
+                elif m.get("kind") == "FunctionTemplateDecl" and m.get("name") not in ("ManagedFilter",):
+                    # member function templates: the instantiated specialisations (concrete parameter lists)
+                    for inst in cppast.kids(m):
+                        if inst.get("kind") == "CXXMethodDecl":
+                            body = cppast.body_of(inst)
+                            if body is not None:
+                                entry["helpers"].setdefault(inst["name"], []).append((cppast.params_of(inst), body))
                 if m.get("kind") == "CXXRecordDecl" and m.get("name") == "State":
                     fields["State"] = [f.get("name") for f in cppast.kids(m) if f.get("kind") == "FieldDecl"]
+    return out
+
+
+# ------------------------------------------------------------------------------------------ IR-level inlining of private helpers
+def _ir_decls(stmts, out):
+    for x in stmts:
+        if not isinstance(x, tuple) or not x:
+            continue
+        if x[0] == "decl":
+            out.add(x[1])
+        for sub in x:
+            if isinstance(sub, list) and sub and isinstance(sub[0], tuple):
+                _ir_decls(sub, out)
+    return out
+
+
+def _subst_ir(s, m):
+    """replace refs by expressions (lambda parameters shadow)"""
+    if isinstance(s, tuple):
+        if s and s[0] == "ref" and s[1] in m:
+            return m[s[1]]
+        if s and s[0] == "decl" and s[1] in m and m[s[1]][0] == "ref":
+            return ("decl", m[s[1]][1]) + tuple(_subst_ir(x, m) for x in s[2:])
+        if s and s[0] == "lambda":
+            inner = {k: v for k, v in m.items() if k not in set(s[1])}
+            return ("lambda", s[1], _subst_ir(s[2], inner))
+        return tuple(_subst_ir(x, m) for x in s)
+    if isinstance(s, list):
+        return [_subst_ir(x, m) for x in s]
+    return s
+
+
+def _resolve_constexpr(stmts):
+    out = []
+    for x in stmts:
+        if x[0] == "if" and x[4] is not None:
+            out.extend(_resolve_constexpr(x[2] if x[4] else x[3]))
+        else:
+            out.append(x)
+    return out
+
+
+def inline_ir(body, helpers, keep=("tick", "processUpdate"), depth=0, problems=None):
+    """inline calls of private member functions (`x = this->h(a)`, `this->h(a);`, `return this->h(a);`): parameters substituted by the (pure)
+    argument expressions, constexpr-ifs of the instantiation resolved, colliding locals renamed, a tail `return e` bound to the call's target"""
+    if depth > 6:
+        return body
+    used = _ir_decls(body, set())
+    out = []
+    counter = [0]
+
+    def callee_of(e):
+        if isinstance(e, tuple) and e and e[0] == "mcall" and e[1] == ("this",) and e[2] in helpers and e[2] not in keep:
+            cands = [h for h in helpers[e[2]] if len(h[0]) == len(e[3])]
+            if len(cands) >= 1:
+                return cands[0]
+        return None
+
+    def expand(call, mk_tail):
+        params, hb = callee_of(call)
+        hb = _resolve_constexpr(hb)
+        hb = [x for x in hb if x[0] != "static_assert"]
+        rets = []
+
+        def find_rets(stmts, top):
+            for i, x in enumerate(stmts):
+                if x[0] == "return":
+                    rets.append((x, top and i == len(stmts) - 1))
+                for sub in x:
+                    if isinstance(sub, list) and sub and isinstance(sub[0], tuple) and x[0] != "decl":
+                        find_rets(sub, False)
+        find_rets(hb, True)
+        if len(rets) > 1 or (rets and not rets[0][1]):
+            if problems is not None:
+                problems.append(f"helper {call[2]} has an early return: not inlined")
+            return None
+        m = {pn: a for (pn, _), a in zip(params, call[3])}
+        counter[0] += 1
+        for d in sorted(_ir_decls(hb, set())):
+            if d in used or d in m:
+                m[d] = ("ref", f"{call[2]}${depth}_{counter[0]}${d}")
+        hb = _subst_ir(hb, m)
+        used.update(_ir_decls(hb, set()))
+        tail = []
+        if hb and hb[-1][0] == "return":
+            r = hb.pop()
+            tail = mk_tail(r[1])
+        else:
+            tail = mk_tail(None)
+        return inline_ir(hb, helpers, keep, depth + 1, problems) + tail
+    for x in body:
+        k = x[0]
+        done = None
+        if k == "decl" and callee_of(x[2]) is not None:
+            done = expand(x[2], lambda v, x=x: [("decl", x[1], v, x[3])] if v is not None else [])
+        elif k == "assign" and callee_of(x[2]) is not None:
+            done = expand(x[2], lambda v, x=x: [("assign", x[1], v)] if v is not None else [])
+        elif k == "expr" and callee_of(x[1]) is not None:
+            done = expand(x[1], lambda v: [("expr", v)] if v is not None and _has_call_impl(v) else [])
+        elif k == "return" and x[1] is not None and callee_of(x[1]) is not None:
+            done = expand(x[1], lambda v: [("return", v)])
+        if done is not None:
+            out.extend(done)
+            continue
+        if k == "if":
+            out.append(("if", x[1], inline_ir(x[2], helpers, keep, depth, problems), inline_ir(x[3], helpers, keep, depth, problems), x[4]))
+        elif k in ("rangefor", "for_range", "while"):
+            out.append(x[:-1] + (inline_ir(x[-1], helpers, keep, depth, problems),))
+        elif k == "for":
+            out.append(x[:-1] + (inline_ir(x[-1], helpers, keep, depth, problems),))
+        else:
+            out.append(x)
     return out
 
 
@@ -682,6 +805,18 @@ def py_runtime(ctx: core.Ctx):
     mod = ctx.parse(rel)
     cls = core.need(core.find_class(mod, "ManagedFilter"), "runtime.ManagedFilter")
     return rel, cls
+
+
+def py_runtime_func(ctx: core.Ctx, cls, name, keep=("_process_model", "tick")):
+    """the named method with its private helpers inlined and the generators it consumes fused (fv.normast); the step function and tick
+    themselves stay calls (they are the units the rules talk about)"""
+    from . import normast
+    mod = ctx.parse("py/formak/runtime.py")
+    fn = core.need(core.find_func(cls, name), f"runtime.ManagedFilter.{name}")
+    out = normast.inline_only(fn, normast.class_resolver(mod, cls, exclude=set(keep)))
+    for h in getattr(out, "_inlined", []):
+        ctx.functions.append(f"runtime.ManagedFilter.{h} (inlined into {name})")
+    return out
 
 
 # ------------------------------------------------------------------------------------------ C10 template check
